@@ -587,11 +587,29 @@ def _refute_small(assumptions, neg_goal, mk, timeout_ms):
     return None
 
 
-def _check_valid(ob, path, mk, goal, timeout_ms, extra_seeds=(), extra=()):
+class Unlinked:
+    """a clause that cannot be phrased for this run (e.g. the code did not compute the statistic the
+    clause is stated over).  On a path where the clause is vacuous anyway nothing is lost; otherwise
+    the obligation is *undecided* (a limit of the contract, never a violation)"""
+
+    def __init__(self, reason):
+        self.reason = reason
+
+
+def _check_valid(ob, path, mk, goal, timeout_ms, extra_seeds=(), extra=(), unlinked=None):
     """prove goal on one path; updates ob; returns True when discharged"""
     if goal is True:
         return True
     goal = alg.lift(goal)
+    if unlinked is not None:
+        assumptions = _path_assumptions(path, mk, [goal] + list(extra), extra_seeds) + list(extra)
+        v, s = solve.prove(assumptions, goal, timeout_ms)
+        _merge(ob, v)
+        if v.status == "unsat":
+            return True
+        ob.status = "undecided"
+        ob.detail += " contract not applicable to this code: %s" % unlinked
+        return False
     assumptions = _path_assumptions(path, mk, [goal] + list(extra), extra_seeds) + list(extra)
     if not ob.size:
         ob.size = sum(len(a.sexpr()) for a in assumptions) + len(goal.sexpr())
@@ -654,6 +672,19 @@ def _exc_site(exc):
 
 
 def verify_case(T, case, timeout_ms=None, want=None, exclude=None):
+    """-> list[ObResult]; a contract that cannot be linked to the run (Unsupported raised while the
+    postconditions are built, e.g. the code no longer computes the statistic the clause is phrased
+    over) makes the whole case undecided - it is a limit of the contract, not a violation"""
+    try:
+        return _verify_case(T, case, timeout_ms, want, exclude)
+    except C.Unsupported as e:
+        ob = ObResult(case.name + ":explore", "error")
+        ob.status = "undecided"
+        ob.detail = "contract not applicable to this code: %s" % (e,)
+        return [ob]
+
+
+def _verify_case(T, case, timeout_ms=None, want=None, exclude=None):
     """-> list[ObResult].
     want(short_name) -> bool selects the obligations of the property being checked (short names:
     'no-raise', 'frame', 'raises.<clause>', 'post.<clause>'); covers and the canary always run.
@@ -863,6 +894,10 @@ def verify_case(T, case, timeout_ms=None, want=None, exclude=None):
             hints = []
             if isinstance(f, tuple):  # (formula, sound extra assumptions: spec axioms, fact instances)
                 f, hints = f[0], [alg.lift(h) for h in f[1] if h is not True]
+            if isinstance(f, Unlinked):
+                if ob.status == "discharged":
+                    _check_valid(ob, p, mk, alg.implies(inr, False), timeout_ms, seeds, extra=excl(short, penv, res, k), unlinked=f.reason)
+                continue
             if ob.status == "discharged":
                 _check_valid(ob, p, mk, alg.implies(inr, f), timeout_ms, seeds, extra=excl(short, penv, res, k) + hints)
         if not canary_refuted:
